@@ -246,6 +246,9 @@ def atom(e, pol=True):
     e = unawait(e)
     if isinstance(e, ast.UnaryOp) and isinstance(e.op, ast.Not):
         return atom(e.operand, not pol)
+    if isinstance(e, ast.Call) and isinstance(e.func, ast.Name) and e.func.id == 'bool' and \
+            len(e.args) == 1 and not e.keywords:
+        return atom(e.args[0], pol)         # as a condition, bool(x) is x
     if isinstance(e, ast.Compare) and len(e.ops) == 1:
         op = e.ops[0]
         l, r = e.left, e.comparators[0]
@@ -253,8 +256,13 @@ def atom(e, pol=True):
             return _sym_eq(l, r), (not pol)
         if isinstance(op, ast.Eq):
             return _sym_eq(l, r), pol
-        if isinstance(op, ast.NotIn):
-            return '%s in %s' % (txt(l), txt(r)), (not pol)
+        if isinstance(op, (ast.NotIn, ast.In)):
+            rt = txt(r)
+            if isinstance(r, (ast.Tuple, ast.Set)) and r.elts and all(
+                    isinstance(x, ast.Constant) for x in r.elts):
+                # membership in a display of literals: list, tuple and set displays agree
+                rt = '[%s]' % ', '.join(txt(x) for x in r.elts)
+            return '%s in %s' % (txt(l), rt), (pol if isinstance(op, ast.In) else not pol)
         if isinstance(op, ast.IsNot):
             return '%s is %s' % (txt(l), txt(r)), (not pol)
         if isinstance(op, (ast.Gt, ast.GtE, ast.Lt, ast.LtE)):
